@@ -84,6 +84,13 @@ claim("C01",
       "Partial by nature: Go's type system is not formalised in Coq; the obligations proved do not imply compilation - the go/types oracle does, on the cases run. github.com/lib/pq is replaced by an API-compatible stand-in (not available offline).",
       "go/types + goimports oracle on real outputs; Coq proof of template obligations + identifier correspondence", "DESIGN.md §5 C01")
 
+claim("C08",
+      "Coq model of the whole schema computation (snake-case names, column selection incl. guards, Go-to-SQL type mapping with sql.Null* look-alikes / composites / bytea / typed arrays / jsonb, nullability, inline CHECKs, primary key, foreign keys by ID type and by tag, validator CHECKs, composite declarations) "
+      "with theorems reading each clause of the statement off the model (NOT NULL iff not nullable wrapper nor variable array; enum CHECK = exactly the constants as SQL literals; id = serial primary key; foreign key iff ID type of another table or tag, one constraint each). "
+      "Tied to /repo by parsing the real script (tables, columns, foreign keys, CHECK constraints, CREATE TYPE) for corpus and synthesised model files and comparing it with the model computed from go/types facts and the observed analysis.",
+      "Trusted: the regex reader of the script; the meaning of the DDL itself (no PostgreSQL server is available to execute it).",
+      "Coq proof (characterisation of the schema model) + parsed-DDL correspondence", "DESIGN.md §5 C08")
+
 NOT_YET = "check not built yet in this round (planned, see DESIGN.md §6)"
 
 checks, na = [], []
